@@ -100,12 +100,22 @@ pub fn bounded_other(max_medium: usize) -> BoxedStrategy<(usize, usize, &'static
         },
     );
     let medium = (1usize..=max_medium, 1usize..=max_medium).prop_map(|(a, b)| (a, b, "medium"));
+    // thousands of shards that are NOT envelope corners: power-of-two neighbourhoods and arbitrary counts
+    // (bounded + other stays far inside the envelope; 8k..64k working positions, ~5-40 ms per round)
+    let large = (
+        prop_oneof![(8u32..=12, 0usize..5).prop_map(|(a, d)| ((1usize << a) + d).saturating_sub(2).max(1)), 1usize..=5000],
+        prop_oneof![(11u32..=14, 0usize..5).prop_map(|(a, d)| ((1usize << a) + d).saturating_sub(2)), 2000usize..=24000],
+    )
+        .prop_map(|(a, b)| (a, b, "large"));
+    // the large class costs ~20x a medium case: its weight follows max_medium (callers that keep cases cheap pass a small one)
+    let wl = if max_medium >= 1000 { 1 } else { 0 };
     prop_oneof![
-        3 => tiny,
-        3 => small,
-        3 => pow2edge,
-        4 => multichunk,
-        1 => medium,
+        9 => tiny,
+        9 => small,
+        9 => pow2edge,
+        12 => multichunk,
+        3 => medium,
+        wl => large,
     ]
     .boxed()
 }
@@ -169,9 +179,11 @@ pub const SIZES: [usize; 17] = [
 
 pub fn shard_size() -> BoxedStrategy<usize> {
     prop_oneof![
-        6 => (0usize..SIZES.len()).prop_map(|i| SIZES[i]),
-        4 => (1usize..=165).prop_map(|h| h * 2),
-        1 => (512usize..=2048).prop_map(|h| h * 2),
+        12 => (0usize..SIZES.len()).prop_map(|i| SIZES[i]),
+        8 => (1usize..=165).prop_map(|h| h * 2),
+        2 => (512usize..=2048).prop_map(|h| h * 2),
+        // several KiB up to 64 KiB, all residues mod 64
+        1 => (2049usize..=32768).prop_map(|h| h * 2),
     ]
     .boxed()
 }
@@ -201,7 +213,8 @@ pub fn cfg(kind: Kind, max_medium: usize) -> BoxedStrategy<(Cfg, &'static str)> 
         .prop_flat_map(|(k, r, class)| {
             let big = k + r > 700;
             let s = if big { shard_size_small() } else { shard_size() };
-            s.prop_map(move |b| (Cfg { k, r, b }, class))
+            // keep one case below ~2 MiB of shard data
+            s.prop_map(move |b| (Cfg { k, r, b: if (k + r) * b > (2 << 20) { 2 + b % 256 / 2 * 2 } else { b } }, class))
         })
         .boxed()
 }
@@ -560,7 +573,9 @@ pub fn count_class(k: usize, r: usize) -> &'static str {
         "small"
     } else if n <= 700 {
         "mid"
-    } else if n <= 6000 {
+    } else if n <= 2500 {
+        "medium"
+    } else if n <= 30000 {
         "large"
     } else {
         "huge"
